@@ -397,16 +397,24 @@ func c05fit(c *Ctx) {
 		key := fkey(fn)
 		var cmp, sign ssa.CallInstruction
 		var subsUsed []ssa.CallInstruction
+		// the clamped quantity is identified structurally: the receiver of the one Sign() call; its Sub calls are the credits
+		nSign := 0
 		for _, cl := range an.Calls(fn, false) {
 			switch an.ShortCallee(cl.Common()) {
 			case "Cmp":
 				cmp = cl
 			case "Sign":
-				if strings.Contains(an.Path(cl.Common().Args[0]), "used") {
-					sign = cl
-				}
-			case "Sub":
-				if strings.Contains(an.Path(cl.Common().Args[0]), "local:used") {
+				sign = cl
+				nSign++
+			}
+		}
+		if nSign != 1 {
+			sign = nil
+		}
+		if sign != nil {
+			usedObj := an.Path(sign.Common().Args[0])
+			for _, cl := range an.Calls(fn, false) {
+				if an.ShortCallee(cl.Common()) == "Sub" && an.Path(cl.Common().Args[0]) == usedObj {
 					subsUsed = append(subsUsed, cl)
 				}
 			}
